@@ -1625,16 +1625,20 @@ struct Explorer {
     }
     if (op.tool_kind == "compdb" && r.exit_code == 0) {
       string why;
-      if (!StrictJson(r.out, &why)) {
+      int not_utf8 = 0;
+      bool ok = StrictJson(r.out, &why, &not_utf8);
+      if (!ok || not_utf8) {
         Violation x; x.prop = "C19"; x.clause = "compdb-invalid-json";
-        x.detail = "compdb output is not valid JSON: " + why;
+        x.detail = "compdb output is not valid JSON: " + (ok ? to_string(not_utf8) + " byte(s) inside strings that are not UTF-8 (RFC 8259 8.1)" : why);
+        x.facts.set("only_defect_is_bytes_that_are_not_utf8", ok);
         out->push_back(x);
       }
     }
   }
 
-  /// R-json: strict RFC 8259 recogniser; bytes >= 0x80 inside strings are opaque.
-  static bool StrictJson(const string& s, string* why) {
+  /// R-json: strict RFC 8259 recogniser.  Byte sequences inside strings that are not UTF-8 are counted (and skipped), so
+  /// that every other defect of the same text is still seen.
+  static bool StrictJson(const string& s, string* why, int* not_utf8 = nullptr) {
     size_t i = 0;
     function<bool()> ws, value, str;
     auto skip = [&] { while (i < s.size() && (s[i] == ' ' || s[i] == '\n' || s[i] == '\t' || s[i] == '\r')) ++i; };
@@ -1644,6 +1648,23 @@ struct Explorer {
       while (i < s.size() && s[i] != '"') {
         unsigned char c = s[i];
         if (c < 0x20) { *why = "raw control character " + to_string((int)c) + " in string at " + to_string(i); return false; }
+        if (c >= 0x80) {
+          // RFC 8259 8.1: JSON text is UTF-8; RFC 3629: no overlong forms, no surrogates, nothing above U+10FFFF
+          int n = c >= 0xf0 ? 3 : c >= 0xe0 ? 2 : c >= 0xc2 ? 1 : -1;
+          bool ok = n > 0 && c <= 0xf4 && i + n < s.size();
+          for (int k = 1; ok && k <= n; ++k) if (((unsigned char)s[i + k] & 0xc0) != 0x80) ok = false;
+          if (ok && c == 0xe0 && (unsigned char)s[i + 1] < 0xa0) ok = false;
+          if (ok && c == 0xed && (unsigned char)s[i + 1] >= 0xa0) ok = false;
+          if (ok && c == 0xf0 && (unsigned char)s[i + 1] < 0x90) ok = false;
+          if (ok && c == 0xf4 && (unsigned char)s[i + 1] >= 0x90) ok = false;
+          if (!ok) {
+            if (!not_utf8) { *why = "byte sequence that is not UTF-8 in string at " + to_string(i); return false; }
+            ++*not_utf8; ++i;
+            continue;
+          }
+          i += n + 1;
+          continue;
+        }
         if (c == '\\') {
           ++i;
           if (i >= s.size()) { *why = "dangling backslash"; return false; }
